@@ -48,6 +48,7 @@ static struct {
 static long coll_next[2][MAXR];
 static long barrier_gen, barrier_cnt;
 
+extern long tw_mid_of(const void *p);
 static int my_thr(void) { return thr_tag[vs_self()]; }
 
 void fm_init(int ranks, unsigned long seed, int mode)
@@ -111,7 +112,7 @@ int MPI_Isend(const void *buf, int size, MPI_Datatype dt, int dest, int tag, MPI
 	stream[st][dest].tail = m;
 	/* classify like mpi_remote_msg_handle does: by size */
 	const char *kind = "ev";
-	long t = -1, id = 0, sq = 0, code = 0;
+	long t = -1, id = 0, sq = 0, code = 0, mid = 0;
 	if(tag == 0) {
 		if(size == (int)sizeof(enum msg_ctrl_code)) {
 			kind = "ctrl";
@@ -121,14 +122,15 @@ int MPI_Isend(const void *buf, int size, MPI_Datatype dt, int dest, int tag, MPI
 			t = t2l(lm->dest_t);
 			id = (long)lm->raw_flags;
 			sq = (long)lm->m_seq;
+			mid = tw_mid_of(lm); /* the sender's buffer: for an anti-message the buffer of the send being cancelled */
 			if(size <= (int)msg_remote_anti_size())
 				kind = "anti";
 		}
 	} else {
 		kind = "data";
 	}
-	fprintf(out, "{\"n\":%lu,\"thr\":%d,\"e\":\"NetSend\",\"nm\":%ld,\"kind\":\"%s\",\"dst\":%d,\"t\":%ld,\"id\":%ld,\"sq\":%ld,\"code\":%ld,\"sz\":%d}\n", ++seqno,
-	    my_thr(), m->nm, kind, dest, t, id, sq, code, size);
+	fprintf(out, "{\"n\":%lu,\"thr\":%d,\"e\":\"NetSend\",\"nm\":%ld,\"kind\":\"%s\",\"dst\":%d,\"t\":%ld,\"id\":%ld,\"sq\":%ld,\"code\":%ld,\"sz\":%d,\"m\":%ld}\n", ++seqno,
+	    my_thr(), m->nm, kind, dest, t, id, sq, code, size, mid);
 	if(req)
 		*req = MPI_REQUEST_NULL;
 	vs_yield(100, 1); /* observation point "a message entered the network" (a shared access for guided replays) */
